@@ -692,3 +692,156 @@ theorem walkList_owned (stack : List FileId) (cur : FileId) (acc : Stream) (xs :
 end
 
 end SnootyVerif.Diag
+
+namespace SnootyVerif.Diag
+
+/-! ### the store under update / delete -/
+
+theorem lookupOut_cons (a : Out) (t : List Out) (k : FileId) :
+    lookupOut (a :: t) k = if a.out = k then some a else lookupOut t k := by
+  unfold lookupOut
+  by_cases h : a.out = k
+  · simp [List.find?, h]
+  · have : (a.out == k) = false := by simp [h]
+    simp [List.find?, h, this]
+
+theorem lookupOut_storeSet (m : List Out) (o : Out) (k : FileId) :
+    lookupOut (storeSet m o) k = if o.out = k then some o else lookupOut m k := by
+  induction m with
+  | nil => simp [storeSet, lookupOut_cons, lookupOut]
+  | cons a t ih =>
+    unfold storeSet
+    by_cases ha : a.out = o.out
+    · simp only [ha, if_true, lookupOut_cons]
+      by_cases h : o.out = k <;> simp [h]
+    · simp only [ha, if_false, lookupOut_cons, ih]
+      by_cases hk : a.out = k
+      · have : ¬ o.out = k := fun h => ha (hk.trans h.symm)
+        simp [hk, this]
+      · simp [hk]
+
+theorem lookupOut_filter (m : List Out) (k' k : FileId) :
+    lookupOut (m.filter (fun o => o.out != k')) k = if k' = k then none else lookupOut m k := by
+  induction m with
+  | nil => by_cases h : k' = k <;> simp [lookupOut, h]
+  | cons a t ih =>
+    by_cases ha : a.out = k'
+    · have hf : List.filter (fun o => o.out != k') (a :: t) = List.filter (fun o => o.out != k') t := by
+        simp [List.filter_cons, ha]
+      rw [hf, ih, lookupOut_cons]
+      by_cases h : k' = k
+      · simp [h]
+      · have : ¬ a.out = k := fun x => h (ha.symm.trans x)
+        simp [h, this]
+    · have hf : List.filter (fun o => o.out != k') (a :: t) = a :: List.filter (fun o => o.out != k') t := by
+        simp [List.filter_cons, ha]
+      rw [hf, lookupOut_cons, lookupOut_cons, ih]
+      by_cases hk : a.out = k
+      · have : ¬ k' = k := fun h => ha (hk.trans h.symm)
+        simp [hk, this]
+      · simp [hk]
+
+theorem lookup_filter_ne (m : DMap) (k' k : FileId) :
+    (m.filter (fun e => e.1 != k')).lookup k = if k' = k then none else m.lookup k := by
+  induction m with
+  | nil => by_cases h : k' = k <;> simp [h]
+  | cons a t ih =>
+    obtain ⟨ak, av⟩ := a
+    by_cases ha : ak = k'
+    · have hf : List.filter (fun e => e.1 != k') ((ak, av) :: t) = List.filter (fun e => e.1 != k') t := by
+        simp [List.filter_cons, ha]
+      rw [hf, ih, lookup_cons_eq]
+      by_cases h : k' = k
+      · simp [h]
+      · have : ¬ k = ak := fun x => h (ha.symm.trans x.symm)
+        simp [h, this]
+    · have hf : List.filter (fun e => e.1 != k') ((ak, av) :: t) = (ak, av) :: List.filter (fun e => e.1 != k') t := by
+        simp [List.filter_cons, ha]
+      rw [hf, lookup_cons_eq, lookup_cons_eq, ih]
+      by_cases hk : k = ak
+      · subst hk
+        have : ¬ k' = k := fun h => ha h.symm
+        simp [this]
+      · simp [hk]
+
+/-- the state after `earlier ++ [op]` is one step from the state after `earlier` -/
+theorem run_snoc (earlier : List Op) (op : Op) : Store.run (earlier ++ [op]) = (Store.run earlier).step op := by
+  simp [Store.run, List.foldl_append]
+
+/-- REFINEMENT: whatever the history, the page stored under `k` and the orphan diagnostics recorded for `k` are those of
+the last-write-wins specification (history given latest operation first). -/
+theorem run_refines (hist : List Op) (k : FileId) :
+    lookupOut (Store.run hist.reverse).parsed k = specOut hist k ∧
+    (Store.run hist.reverse).orphan.lookup k = specOrphan hist k := by
+  induction hist with
+  | nil => simp [Store.run, Store.empty, lookupOut, specOut, specOrphan]
+  | cons op earlier ih =>
+    rw [List.reverse_cons, run_snoc]
+    cases op with
+    | set o =>
+      simp only [Store.step, specOut, specOrphan]
+      exact ⟨by rw [lookupOut_storeSet, ih.1], ih.2⟩
+    | setOrphan k' ds =>
+      simp only [Store.step, specOut, specOrphan]
+      refine ⟨ih.1, ?_⟩
+      rw [lookup_dictSet, ih.2]
+      by_cases h : k = k'
+      · subst h; simp
+      · have h' : ¬ k' = k := fun x => h x.symm
+        simp only [h, h', if_false]
+    | del k' =>
+      simp only [Store.step, specOut, specOrphan]
+      exact ⟨by rw [lookupOut_filter, ih.1], by rw [lookup_filter_ne, ih.2]⟩
+
+/-- dict keys stay unique -/
+theorem storeSet_keys_nodup (m : List Out) (o : Out) (h : (m.map (·.out)).Nodup) : ((storeSet m o).map (·.out)).Nodup := by
+  induction m with
+  | nil => simp [storeSet]
+  | cons a t ih =>
+    simp only [List.map_cons, List.nodup_cons] at h
+    simp only [storeSet]
+    by_cases ha : a.out = o.out
+    · simp only [ha, if_true, List.map_cons, List.nodup_cons]
+      exact ⟨ha ▸ h.1, h.2⟩
+    · simp only [ha, if_false, List.map_cons, List.nodup_cons]
+      refine ⟨?_, ih h.2⟩
+      intro hm
+      have : ∀ (t : List Out), a.out ∈ (storeSet t o).map (·.out) → a.out ∈ t.map (·.out) ∨ a.out = o.out := by
+        intro t
+        induction t with
+        | nil => intro h; simp [storeSet] at h; exact Or.inr h
+        | cons b u ihu =>
+          intro h
+          simp only [storeSet] at h
+          by_cases hb : b.out = o.out
+          · simp only [hb, if_true, List.map_cons, List.mem_cons] at h
+            rcases h with h | h
+            · exact Or.inr h
+            · exact Or.inl (by simp [h])
+          · simp only [hb, if_false, List.map_cons, List.mem_cons] at h
+            rcases h with h | h
+            · exact Or.inl (by simp [h])
+            · rcases ihu h with h' | h'
+              · exact Or.inl (by simp [h'])
+              · exact Or.inr h'
+      rcases this t hm with h' | h'
+      · exact h.1 h'
+      · exact ha h'
+
+theorem run_keys_nodup (ops : List Op) : ((Store.run ops).parsed.map (·.out)).Nodup := by
+  suffices h : ∀ (s : Store), (s.parsed.map (·.out)).Nodup → ((ops.foldl Store.step s).parsed.map (·.out)).Nodup from
+    h Store.empty (by simp [Store.empty])
+  induction ops with
+  | nil => intro s h; exact h
+  | cons op rest ih =>
+    intro s h
+    simp only [List.foldl]
+    apply ih
+    cases op with
+    | set o => exact storeSet_keys_nodup _ _ h
+    | setOrphan k ds => exact h
+    | del k =>
+      simp only [Store.step]
+      exact List.Nodup.sublist (List.Sublist.map _ List.filter_sublist) h
+
+end SnootyVerif.Diag
